@@ -115,10 +115,10 @@ func secretKeyLinkRule(P *Program, R *Report) {
 		q           func() *MustPass
 	}{
 		{"record-or-compare", "every iteration records the secret-key response under its label or compares it with the recorded one", func() *MustPass {
-			return &MustPass{NoInterproc: true, Match: isCompare, Instr: isStore}
+			return &MustPass{Match: isCompare, Instr: isStore}
 		}},
 		{"record-only-if-unseen", "a response is recorded (not compared) only when its label has not been seen", func() *MustPass {
-			return &MustPass{NoInterproc: true, Match: anyOf(isCompare, isUnseen)}
+			return &MustPass{Match: anyOf(isCompare, isUnseen)}
 		}},
 	} {
 		part := part
@@ -285,14 +285,14 @@ func sharedRandomizerRule(P *Program, R *Report) {
 	// DisclosureProofBuilder.Commit
 	if fn := mustFunc(P, R, rule, "gabi.(*DisclosureProofBuilder).Commit"); fn != nil {
 		mp(P, R, rule, FuncKey(fn)+":takes-shared", "every successful Commit installs randomizers[\"secretkey\"] as the randomiser of attribute 0", fn, AcceptNilErr(1),
-			&MustPass{NoInterproc: true, Instr: func(f *ssa.Function, i ssa.Instruction) bool {
+			&MustPass{Instr: func(f *ssa.Function, i ssa.Instruction) bool {
 				mu, ok := i.(*ssa.MapUpdate)
 				return ok && desc(mu.Map) == "<gabi.DisclosureProofBuilder>.attrRandomizers" && desc(mu.Key) == "0" && desc(mu.Value) == skey
 			}})
 	}
 	if fn := mustFunc(P, R, rule, "gabi.(*CredentialBuilder).Commit"); fn != nil {
 		mp(P, R, rule, FuncKey(fn)+":takes-shared", "every successful Commit installs randomizers[\"secretkey\"] as the secret's randomiser", fn, AcceptNilErr(1),
-			&MustPass{NoInterproc: true, Instr: func(f *ssa.Function, i ssa.Instruction) bool {
+			&MustPass{Instr: func(f *ssa.Function, i ssa.Instruction) bool {
 				st, ok := i.(*ssa.Store)
 				return ok && desc(st.Addr) == "<gabi.CredentialBuilder>.skRandomizer" && desc(st.Val) == skey
 			}})
